@@ -24,14 +24,14 @@ SPEC = {
              "M2/M3/M4 random. distinct_nontrivial = distinct isomorphism classes (independent canonical form or oracle verdict) that were compared with a DIFFERENT class "
              "of equal formula"),
     "assumptions": ["isomorphism oracle: brute-force canonical form n<=8, igraph VF2 above (cross-checked with networkx VF2 and canonical form on small cases each run)"],
-    "exhaustive_note": "all labelled simple graphs on n<=4 (quick) / n<=5 (thorough) vertices x 3^n colourings from {C, 13C, C radical}",
+    "exhaustive_note": "all labelled simple graphs on n<=4 (quick) / n<=5 (thorough) vertices x 3^n colourings from {C, 13C, C radical}; thorough additionally all 32 768 labelled graphs on 6 carbon atoms",
     "monitors_required": ["c02_partition_compare", "c02_near_miss_pairs", "c02_equal_string_groups", "oracle_selftest"],
     "required_obs": {"quick": ["route/direct", "route/v3000", "route/v2000", "cov_label_removed_pair_nonisomorphic", "cov_wl_equivalent_nonisomorphic_pair", "cov_label_moved_pair_nonisomorphic", "cov_cfi_pair", "cov_switch_pair_nonisomorphic", "cov_massrad_pair"]},
     "watchdog_s": {"quick": 900, "thorough": 5400},
 }
 PLAN = {
     "quick": {"small_n": 4, "pairs": 4000, "random": {"M2s": 1500, "M3": 800, "M4": 300}},
-    "thorough": {"small_n": 5, "pairs": 40000, "random": {"M2s": 15000, "M3": 8000, "M4": 3000}},
+    "thorough": {"small_n": 5, "extra": [(6, [("C", 0, 0)])], "pairs": 40000, "random": {"M2s": 15000, "M3": 8000, "M4": 3000}},
 }
 
 
@@ -145,7 +145,7 @@ def run(ctx):
     ctx.mon("oracle_selftest", iso.self_test(random.Random(f"{ctx.seed}/{ctx.shard}"), 40))
     ev = open(ctx.events_path, "w")
     # (a) exhaustive small sub-space
-    for mol in common.small_exhaustive(ctx, plan["small_n"]):
+    for mol in common.small_exhaustive(ctx, plan["small_n"], extra=plan.get("extra", ())):
         try:
             s = pipeline(bridge.graph_direct(mol, tag=False))
         except PipelineFailed as e:
